@@ -19,8 +19,8 @@ class Choice:
 
 class Store:
     """one Bdd under test + the specification tables of every handle issued"""
-    def __init__(self, e, n, canary=None, check=True):
-        self.e = e; self.n = n
+    def __init__(self, e, n, canary=None, check=True, features=None):
+        self.e = e; self.n = n; self.features = features
         self.bdd, self.r = new_bdd(e)
         self.handles = []        # Term structs
         self.spec = []           # per handle: list of z3 Bool / python bool (spec table)
@@ -115,7 +115,9 @@ class Store:
                 elif is_sym(v): c[k] = mbool(m, v) if z3.is_bool(v) else mint(m, v)
                 else: c[k] = v
             out.append(c)
-        return {'cmd': 'bdd_script', 'n': self.n, 'steps': out}
+        d = {'cmd': 'bdd_script', 'n': self.n, 'steps': out}
+        if self.features: d['features'] = self.features
+        return d
 
     def check_step(self, before, k):
         e = self.e; n = self.n
